@@ -98,6 +98,9 @@ func VerifC06Run(args []string) {
 			conf.CompileOptions[ReportEvent] = true
 		case "debug":
 			conf.CompileOptions[Debug] = true
+		case "both":
+			conf.CompileOptions[ReportEvent] = true
+			conf.CompileOptions[Debug] = true
 		}
 		e, err := Compile(conf, src)
 		vfAssert((e == nil) != (err == nil), "Compile returns exactly one of program and error")
